@@ -217,6 +217,13 @@ def run_path(I, con, vname, module, cls, fn, params, requires, ensures, raises, 
         check_frame(I, con, svs, snap, qual)
         return outcome
     # normal return
+    if con.ghost.get('emits'):
+        from .specprims import _events
+        from .contract import eval_spec_value
+        cur = _events(I)
+        lt_e = TY.list_theory(TY.Obj)
+        obj = eval_spec_value(I, con.ghost['emits'], sf)
+        path.events = SV('slist', lt_e.lapp(cur.t, obj.t), extra=cur.extra)
     for e, t in raise_terms.items():
         path.oblige(f"{qual}:raises:{e}:must", z3.Not(t))
     rv = result
